@@ -180,8 +180,10 @@ def astEval (au : Bool) : AnnExpr → Option Res
     (astEval false e).map fun r => ⟨mkSub r.ty, r.errs, false⟩
   | .ann e k =>                                 -- :797 `_make_annotated(_type_from_value(origin, ctx), …)`
     (astEval false e).map fun r => ⟨annotateK k r.ty, r.errs, false⟩
-  | .final e => if e.starU then none else errAny      -- no branch for Final: falls to :870
-  | .classVar e => if e.starU then none else errAny   -- no branch for ClassVar: falls to :870
+  | .final e =>                                 -- :814 `return _type_from_value(members[0], ctx)`
+    (astEval false e).map fun r => ⟨r.ty, r.errs, false⟩
+  | .classVar e =>                              -- :820
+    (astEval false e).map fun r => ⟨r.ty, r.errs, false⟩
   | .opt e =>                                   -- :786 `unite_values(KnownValue(None), …)`
     (astEval false e).map fun r => ⟨unite [.known .none, r.ty], r.errs, false⟩
   | .union es =>                                -- :767
@@ -375,6 +377,11 @@ def DefArgs.alignedDefaults (d : DefArgs) : List (Option DVal) :=
   (match d.vararg with | some _ => [none] | none => []) ++
   d.kwDefaults.map (fun x => x.map visitDefault)
 
+/-- `is_positional_only_arg_name` (analysis_lib.py:130) for a function that is not a method of a
+class whose name prefixes the parameter name. -/
+def isDunderName (s : String) : Bool :=
+  s.toList.take 2 == ['_', '_'] && !(s.toList.reverse.take 2 == ['_', '_'])
+
 /-- One iteration of the loop of `compute_parameters` (functions.py:257‥342); `eval` is the
 evaluation of an annotation in checked source (`ctx.value_of_annotation`). -/
 def defParam (eval : Bool → AnnExpr → Option Res) (methodOf : Option Cls) (idx : Nat)
@@ -391,14 +398,21 @@ def defParam (eval : Bool → AnnExpr → Option Res) (methodOf : Option Cls) (i
         | none => .any
       some ⟨arg.name, kind, dflt, translateVararg kind ⟨v, 0, false⟩, 0⟩
 
+/-- the loop of `compute_parameters` (functions.py:257‥353). A positional-or-keyword parameter
+named `__x` becomes positional-only **and so does every parameter before it** (:341‥349, the
+PEP 484 rule, as in `from_signature`); the annotation has been read with the original kind. -/
 def defLoop (eval : Bool → AnnExpr → Option Res) (methodOf : Option Cls) :
-    Nat → List (Option (Kind × PArg) × Option (Option DVal)) → Option (List SigParam)
-  | _, [] => some []
-  | _, (none, _) :: _ => none                 -- `assert param is not None` :258
-  | idx, (some (k, a), d) :: rest =>
-    match defParam eval methodOf idx k a (d.getD none), defLoop eval methodOf (idx + 1) rest with
-    | some p, some ps => some (p :: ps)
-    | _, _ => none
+    Nat → List SigParam → List (Option (Kind × PArg) × Option (Option DVal)) → Option (List SigParam)
+  | _, acc, [] => some acc
+  | _, _, (none, _) :: _ => none              -- `assert param is not None` :258
+  | idx, acc, (some (k, a), d) :: rest =>
+    match defParam eval methodOf idx k a (d.getD none) with
+    | none => none
+    | some p =>
+      if k == .posOrKw && isDunderName a.name then
+        defLoop eval methodOf (idx + 1)
+          (acc.map (fun q => { q with kind := .posOnly }) ++ [{ p with kind := .posOnly }]) rest
+      else defLoop eval methodOf (idx + 1) (acc ++ [p]) rest
 
 structure SigOut where
   params : List SigParam
@@ -411,17 +425,12 @@ structure SigOut where
 `compute_value_of_function` :418, with `eval` = the in-source reading of an annotation.
 `none` = an exception escaped (reported as `internal_error`; the function's value is `Any`). -/
 def fromDefWith (eval : Bool → AnnExpr → Option Res) (d : DefArgs) : Option SigOut :=
-  match defLoop eval d.methodOf 0 (zipLongest d.kinded d.alignedDefaults) with
+  match defLoop eval d.methodOf 0 [] (zipLongest d.kinded d.alignedDefaults) with
   | none => none
   | some ps =>
     match d.returns with
     | none => some ⟨ps, .any, false, 0⟩
     | some a => (eval false a).map fun r => ⟨ps, r.ty, true, r.errs⟩
-
-/-- `is_positional_only_arg_name` (analysis_lib.py:130) for a function that is not a method of a
-class whose name prefixes the parameter name. -/
-def isDunderName (s : String) : Bool :=
-  s.toList.take 2 == ['_', '_'] && !(s.toList.reverse.take 2 == ['_', '_'])
 
 /-- the parameter as `inspect.signature` reports it -/
 structure IParam where
